@@ -56,10 +56,12 @@ func c17r1(r *R) {
 			if c.Expr(a[0]) == "outer(p0).inShutdown" && c.Expr(a[1]) == "true" {
 				store = i
 			}
-		case isCall(i, "(*net/http.Server).Shutdown"), isCall(i, "(*net/http.Server).Close"):
+		case isCall(i, "(*net/http.Server).Shutdown"):
 			if c.Expr(callOf(i).Args[0]) == "outer(p0).HTTPServer" {
 				shut = i
 			}
+		case isCall(i, "(*net/http.Server).Close"):
+			o.AtI(i).Fail("the watcher calls HTTPServer.Close(), which drops in-flight HTTP/1.1 exchanges instead of draining them (Shutdown)")
 		case isCall(i, "(net.Listener).Close"):
 			if c.Expr(callOf(i).Value) == "outer(p1)" {
 				lnClose = i
